@@ -252,6 +252,7 @@ def run(ctx):
     for x in res[5:9] + res[-3:]:
         ctx.sample({"packages": x[0], "imports": {str(k): v for k, v in x[1].items()}, "expected": x[2], "exit": x[3]})
     special(ctx, home)
+    git_imports(ctx)
 
 
 def shared_namespaces(ctx, home, graphs, quick):
@@ -305,6 +306,103 @@ def shared_namespaces(ctx, home, graphs, quick):
                 shutil.rmtree(base, ignore_errors=True)
 
     pmap(one, jobs)
+
+
+def git_imports(ctx):
+    """import graphs whose edges are git imports (`https://host/repo?ref=<commit>&dir=<sub>`), served offline: a scratch HOME whose .gitconfig rewrites
+    https://yardl.invalid/ to a local directory of repositories. One repository holds three packages at three commits; every package changes between the
+    commits, so *which* commit was loaded is visible in the model dump. Oracle: every import resolves to the commit it names (whatever else the same load
+    imports from that repository, in whatever order, with a cold or a warm cache); two different commits of one package reached in one load are two
+    directories claiming one namespace (error); the same commit reached twice is one package."""
+    W = os.path.join(ctx.workdir, "cases", "git")
+    shutil.rmtree(W, ignore_errors=True)
+    remotes = os.path.join(W, "remotes")
+    repo = os.path.join(remotes, "mono")
+    genv = {"PATH": os.environ.get("PATH", "/usr/bin:/bin"), "HOME": os.path.join(W, "githome"), "GIT_CONFIG_NOSYSTEM": "1", "GIT_TERMINAL_PROMPT": "0",
+            "GIT_AUTHOR_DATE": "2020-01-01T00:00:00Z", "GIT_COMMITTER_DATE": "2020-01-01T00:00:00Z"}
+    os.makedirs(genv["HOME"], exist_ok=True)
+    gitconfig = "[user]\n\tname = verif\n\temail = verif@example.invalid\n[init]\n\tdefaultBranch = main\n[advice]\n\tdetachedHead = false\n[url \"%s/\"]\n\tinsteadOf = https://yardl.invalid/\n" % remotes
+    open(os.path.join(genv["HOME"], ".gitconfig"), "w").write(gitconfig)
+
+    def git(*a):
+        pr = subprocess.run(["git"] + list(a), cwd=repo, env=genv, capture_output=True, text=True)
+        if pr.returncode != 0:
+            raise Inconclusive("git %s failed: %s" % (" ".join(a), pr.stderr[-300:]))
+        return pr.stdout.strip()
+    os.makedirs(repo)
+    git("init", "-q", ".")
+    commits = []
+    for c in range(3):
+        files = {}
+        for pk in ("x", "y", "z"):
+            files["%s/_package.yml" % pk] = "namespace: %s\n" % pk.upper()
+            files["%s/m.yml" % pk] = "R%s: !record\n  fields:\n" % pk.upper() + "".join("    %s%d: int\n" % (pk, k) for k in range(c + 1))
+        common.write_tree(repo, files)
+        git("add", "-A")
+        git("commit", "-q", "-m", "commit %d" % c)
+        commits.append(git("rev-parse", "--short=10", "HEAD"))
+    if subprocess.run(["git", "ls-remote", "https://yardl.invalid/mono"], env=genv, capture_output=True).returncode != 0:
+        raise Inconclusive("the git insteadOf rewrite does not work in this environment")
+    url = lambda pk, c: "https://yardl.invalid/mono?ref=%s&dir=%s" % (commits[c], pk)
+
+    def fields_of(dump, ns):
+        j = json.loads(dump)
+        for n in j.get("namespaces", []):
+            if n.get("name") == ns:
+                for t in n.get("types", []):
+                    rec = t.get("record") if isinstance(t, dict) else None
+                    if rec and rec.get("name") == "R" + ns:
+                        return len(rec.get("fields", []))
+        return None
+
+    scen = []
+    # (name, root imports [(pk, commit)], local package B's imports or None, expectation)
+    for order in ([("x", 0), ("y", 2)], [("y", 2), ("x", 0)], [("x", 1), ("y", 0), ("z", 2)], [("z", 2), ("y", 0), ("x", 1)], [("x", 2), ("y", 2)]):
+        scen.append(("fanout-" + "-".join("%s%d" % o for o in order), order, None, "ok"))
+    scen.append(("same-commit-twice", [("x", 1)], [("x", 1)], "ok"))
+    scen.append(("two-commits-of-one-package", [("x", 0)], [("x", 2)], "conflict"))
+    scen.append(("two-commits-of-one-package-other-order", [("x", 2)], [("x", 0)], "conflict"))
+    for name, imports, bimports, expect in scen:
+        for cache in ("cold", "warm"):
+            base = os.path.join(W, name + "_" + cache)
+            home = os.path.join(W, "home_" + name) if cache == "warm" else os.path.join(base, "home")
+            if cache == "warm" and not os.path.isdir(home):
+                continue
+            os.makedirs(home, exist_ok=True)
+            open(os.path.join(home, ".gitconfig"), "w").write(gitconfig)
+            man = "namespace: A\nimports:\n" + "".join('  - "%s"\n' % url(pk, c) for pk, c in imports) + ("  - ../b\n" if bimports else "") + "json:\n  outputDir: ../out/json\n"
+            model = "RA: !record\n  fields:\n    own: int\n" + "".join("    f%s: %s.R%s?\n" % (pk, pk.upper(), pk.upper()) for pk, _ in imports)
+            files = {"a/_package.yml": man, "a/m.yml": model + "Root: !protocol\n  sequence:\n    r: RA\n"}
+            if bimports:
+                files["b/_package.yml"] = "namespace: B\nimports:\n" + "".join('  - "%s"\n' % url(pk, c) for pk, c in bimports)
+                files["b/m.yml"] = "RB: !record\n  fields:\n    own: int\n"
+            common.write_tree(base, files)
+            p, parsed, dump = observe(os.path.join(base, "a"), home)
+            if cache == "cold":
+                shutil.copytree(home, os.path.join(W, "home_" + name), dirs_exist_ok=True)
+            ctx.ev()
+            ctx.case(("git-imports", name, cache))
+            ctx.count("git-imports.%s" % expect)
+            what = "git imports %s (%s cache)" % (name, cache)
+            case = {"case_dir": base, "stderr": cli.clean(p.stderr)[-1200:]}
+            site = cli.panic_site(p.stderr)
+            if p.timed_out:
+                raise Inconclusive("watchdog")
+            if site:
+                ctx.violation("panic@%s" % site, "%s: crash" % what, case)
+            elif expect == "conflict":
+                if p.rc != 1:
+                    ctx.violation("accepted:conflict:git", "%s: namespace X is claimed by two different checkouts, this must be an error (rc=%s)" % (what, p.rc), case)
+            elif p.rc != 0:
+                ctx.violation("rejected-valid-graph:git", "%s: valid graph rejected: %s" % (what, cli.clean(p.stderr)[:300]), case)
+            else:
+                for pk, c in imports + (bimports or []):
+                    got = fields_of(dump, pk.upper())
+                    if got != c + 1:
+                        ctx.violation("wrong-commit-loaded", "%s: package %s was imported at commit #%d (R%s has %d fields there), the loaded model has %s fields" % (what, pk, c, pk.upper(), c + 1, got), case)
+                        break
+                if sorted(parsed) != sorted(set(parsed)):
+                    ctx.violation("load-count", "%s: a namespace was parsed more than once: %s" % (what, parsed), case)
 
 
 def special(ctx, home):
